@@ -8,9 +8,11 @@ import (
 	"io"
 	"net"
 	"runtime"
+	"sort"
 	"strings"
 	"time"
 
+	"github.com/TheManticoreProject/Manticore/network/llmnr"
 	"github.com/TheManticoreProject/Manticore/network/netbios/nbtns"
 
 	"manticoreverif/ref/dns"
@@ -289,11 +291,23 @@ func (c *client) exchange(r req, timeout time.Duration) (resp, bool) {
 
 // ---- goroutine accounting ---------------------------------------------------------------------------------
 
-// libGoroutines returns the entry functions of goroutines that run library code.
-func libGoroutines() []string {
+// gset is a set of goroutines: id -> entry function (library functions without the module path).
+type gset map[string]string
+
+func (g gset) names() []string {
+	out := make([]string, 0, len(g))
+	for _, fn := range g {
+		out = append(out, fn)
+	}
+	sort.Strings(out)
+	return out
+}
+
+// libGoroutines returns the goroutines that run library code.
+func libGoroutines() gset {
 	buf := make([]byte, 1<<20)
 	buf = buf[:runtime.Stack(buf, true)]
-	var out []string
+	out := gset{}
 	for _, g := range strings.Split(string(buf), "\n\n") {
 		if !strings.Contains(g, "TheManticoreProject/Manticore/network/") {
 			continue
@@ -302,6 +316,10 @@ func libGoroutines() []string {
 			continue // the caller itself, when called from a handler
 		}
 		lines := strings.Split(g, "\n")
+		id := ""
+		if f := strings.Fields(lines[0]); len(f) >= 2 && f[0] == "goroutine" {
+			id = f[1]
+		}
 		fn := ""
 		for _, l := range lines {
 			if strings.HasPrefix(l, "github.com/TheManticoreProject/Manticore/") {
@@ -311,26 +329,107 @@ func libGoroutines() []string {
 				}
 			}
 		}
-		if fn != "" {
-			out = append(out, fn)
+		if fn != "" && id != "" {
+			out[id] = fn
 		}
 	}
 	return out
 }
 
-// waitNoLibGoroutines polls until no goroutine runs library code (beyond the baseline count).
-func waitNoLibGoroutines(baseline int, d time.Duration) []string {
+// waitNoLibGoroutines polls until no goroutine outside base runs library code; it returns those that still do
+// after d (nil: none).
+func waitNoLibGoroutines(base gset, d time.Duration) gset {
 	deadline := time.Now().Add(d)
 	for {
-		g := libGoroutines()
-		if len(g) <= baseline || time.Now().After(deadline) {
-			if len(g) <= baseline {
-				return nil
+		extra := gset{}
+		for id, fn := range libGoroutines() {
+			if _, ok := base[id]; !ok {
+				extra[id] = fn
 			}
-			return g
+		}
+		if len(extra) == 0 {
+			return nil
+		}
+		if time.Now().After(deadline) {
+			return extra
 		}
 		time.Sleep(5 * time.Millisecond)
 	}
+}
+
+// how long after Stop/Close a goroutine may still run library code
+const leakWait = 2 * time.Second
+
+// leaked decides whether the case that ran since base was taken leaked goroutines. A leak is growth, not
+// existence: a goroutine the library starts once per process on first use (a logging goroutine behind a
+// sync.Once, say) is still there after Stop and is no leak. So when goroutines started during the case still run
+// library code leakWait after it, the same case runs once more (again): a leak - goroutines left behind by every
+// start/stop cycle, or loops that outlive Stop by more than leakWait - leaves new ones behind again and is
+// reported; a process-wide singleton does not.
+func leaked(base gset, again func()) []string {
+	left := waitNoLibGoroutines(base, leakWait)
+	if left == nil {
+		return nil
+	}
+	known := libGoroutines()
+	for id, fn := range base {
+		known[id] = fn
+	}
+	for id, fn := range left {
+		known[id] = fn
+	}
+	again()
+	if left2 := waitNoLibGoroutines(known, leakWait); left2 != nil {
+		return append(left2.names(), fmt.Sprintf("(after the case before: %v)", left.names()))
+	}
+	return nil
+}
+
+// cycle is one plain start/stop of a server or client of the given kind.
+func cycle(target string) {
+	var stop func()
+	switch target {
+	case "llmnr-client":
+		cl, err := llmnr.NewClient()
+		if err != nil {
+			return
+		}
+		stop = func() { cl.Close() }
+	case "llmnr-server":
+		srv, err := llmnr.NewServer("udp4", nil)
+		if err != nil {
+			return
+		}
+		conn, err := net.ListenUDP("udp4", &net.UDPAddr{IP: net.IPv4(127, 0, 0, 1)})
+		if err != nil {
+			return
+		}
+		srv.Conn = conn
+		srv.Address = conn.LocalAddr().(*net.UDPAddr)
+		go srv.Serve()
+		stop = func() { srv.Close() }
+	default:
+		r, err := startServer(target)
+		if err != nil {
+			return
+		}
+		stop = r.srv.Stop
+	}
+	within(stopBudget, stop)
+}
+
+var warmed = map[string]bool{}
+
+// warmUp runs, once per process and kind, one full start/stop cycle before the first baseline of that kind is
+// taken: what the library starts once on first use is then part of every baseline.
+func warmUp(target string) {
+	if warmed[target] {
+		return
+	}
+	warmed[target] = true
+	before := libGoroutines()
+	cycle(target)
+	waitNoLibGoroutines(before, leakWait)
 }
 
 // within runs fn and reports whether it returned within d.
